@@ -91,6 +91,27 @@ def small_prime(n):
     return True
 
 
+def _chernick(lo, count):
+    """Carmichael numbers (6k+1)(12k+1)(18k+1) with all three factors prime: Fermat pseudoprimes to every
+    coprime base, least factor 6k+1 (so the interpreter's trial division still terminates quickly)."""
+    out, k = [], lo
+    while len(out) < count:
+        if small_prime(6 * k + 1) and small_prime(12 * k + 1) and small_prime(18 * k + 1):
+            out.append((6 * k + 1) * (12 * k + 1) * (18 * k + 1))
+        k += 1
+    return out
+
+
+# composites that fool probabilistic tests, each with a least prime factor < 10^6 (is_prime is exact trial
+# division: a replacement by a Fermat / Miller-Rabin / fixed-base test would accept these)
+PSEUDOPRIMES = [341, 561, 645, 1105, 1729, 2047, 2465, 2821, 6601, 8911, 3215031751, 4759123141, 1122004669633,
+                3825123056546413051, 2 ** 64 + 1, 2 ** 71 - 1, 2 ** 73 - 1, 2 ** 79 - 1, 2 ** 83 - 1, 2 ** 97 - 1,
+                2 ** 113 - 1, 2 ** 131 - 1] + _chernick(1, 6) + _chernick(260000, 12) + _chernick(900000, 6)
+PSEUDO_SET = set(PSEUDOPRIMES)      # composite by construction (import-time self-check below)
+assert all(any(a % p == 0 for p in range(2, 1000)) or not small_prime(a) for a in PSEUDOPRIMES)
+PRIMES_LT_1E6 = [p for p in range(2, 2000) if small_prime(p)] + [65537, 99991, 274177, 999983]
+
+
 # expected value: returns ("v", int) | ("throw",) | None (case not applicable)
 def expect(op, a, b):
     if op == "+":
@@ -161,6 +182,14 @@ def gen_case(r):
             b = r.choice([0, 1, 2, 3, 5, 31, 62, 63, 64, 65, 100])
             if a.bit_length() * b > 20000:
                 b = 2
+            if r.random() < 0.12:
+                # exponents beyond a machine half-word / word: only bases whose power stays small
+                a = r.choice([0, 1, -1])
+                b = r.choice([2 ** 31, 2 ** 32, 2 ** 32 + 1, 3 * 2 ** 32, 2 ** 33 - 1, 2 ** 63, 2 ** 64, 2 ** 64 + 1, 10 ** 30 + 1])
+            elif r.random() < 0.15:
+                # results straddling the machine-word boundary from small operands
+                a = r.choice([2, -2, 3, -3, 7, -7, 10, 15, 240, -240, 255, 256, 1000, 3037000499, 3037000500, -3037000500, 2097152, -2097152])
+                b = r.choice([2, 3, 7, 8, 9, 15, 16, 19, 20, 21, 22, 23, 31, 39, 40, 62, 63, 64])
         elif op in ("<<", ">>"):
             b = r.choice([0, 1, 2, 31, 32, 62, 63, 64, 65, 100, 200])
         elif op == "/!" and r.random() < 0.7 and b != 0:
@@ -199,10 +228,13 @@ def gen_case(r):
         return sa, ("v", a), {"op": op, "a": a, "prod": [ta]}
     if op == "is_prime":
         a = r.choice([r.randint(-5, 200), r.randint(0, 10 ** 6), r.choice([2 ** 31 - 1, 2 ** 31 + 11, 10 ** 9 + 7, 10 ** 9 + 8,
-                      4294967291, 4294967297, 999999999989, 999999999991])])
+                      4294967291, 4294967297, 999999999989, 999999999991]),
+                      r.choice(PSEUDOPRIMES),
+                      r.choice(PRIMES_LT_1E6) * (r.getrandbits(r.choice([40, 64, 70, 128, 200])) | 3)])
         sa, ta = produce(r, a)
-        # is_prime is trial division: operands are kept <= 10^12 (a bound of the exploration)
-        exp = int(small_prime(a))
+        # is_prime is trial division: operands are primes <= 10^12 or have a least prime factor < 10^6 (a bound of
+        # the exploration: a prime beyond 2^64 would never finish); the Python oracle is trial division as well
+        exp = 0 if a in PSEUDO_SET else int(small_prime(a))
         return "is_prime(%s)" % sa, ("v", exp), {"op": op, "a": a, "prod": [ta]}
     if op == "factorize":
         a = r.choice([r.randint(1, 5000), r.randint(1, 10 ** 9), -r.randint(2, 10 ** 6),
